@@ -523,6 +523,59 @@ func checkC15(e *Engine, r *Report) {
 					"pod.waitResCh (read by GetPodResources to decide whether to wait) is stored before the fetch goroutine is spawned",
 					e.InstrPos(goIn), fetch, p == nil, "a path reaches the go statement without storing it: "+e.pathString(p), true)
 				_ = fCh
+				// what is fetched is what readers get: the source channel handed to goFetchPodResources is recorded before
+				// the goroutine starts, the goroutine stores what it receives from that channel as the pod's resources
+				// whenever there is a channel, and createPod starts the fetch
+				if fCh != nil && len(fetch.Params) >= 2 {
+					chP := ssa.Value(fetch.Params[1])
+					pRec := FindPath(PathQuery{Fn: fetch, Target: func(in ssa.Instruction) bool { return in == goIn },
+						Block: func(in ssa.Instruction) bool {
+							st, ok := in.(*ssa.Store)
+							return ok && fieldOfAddr(st.Addr) == fCh && sameObject(st.Val, chP)
+						}})
+					r.Check("R8:fetch-source-recorded", "R8 publish-before-spawn", "the channel the pod's resources arrive on is recorded before the fetch goroutine is spawned", e.InstrPos(goIn), fetch, pRec == nil, e.pathString(pRec), true)
+					fPR := e.Field(pkgCA, "pod", "PodResources")
+					for _, sp := range spawned {
+						hasCh := func(cond ssa.Value) (bool, bool) {
+							b, ok := cond.(*ssa.BinOp)
+							if !ok || (b.Op != token.EQL && b.Op != token.NEQ) {
+								return false, false
+							}
+							for _, pr := range [][2]ssa.Value{{b.X, b.Y}, {b.Y, b.X}} {
+								if k, isK := pr[1].(*ssa.Const); isK && k.IsNil() && isFieldLoad(pr[0], fCh) {
+									return true, b.Op == token.NEQ
+								}
+							}
+							return false, false
+						}
+						publishes := func(in ssa.Instruction) bool {
+							st, ok := in.(*ssa.Store)
+							if !ok || fieldOfAddr(st.Addr) != fPR {
+								return false
+							}
+							u, ok := st.Val.(*ssa.UnOp)
+							return ok && u.Op == token.ARROW && isFieldLoad(u.X, fCh)
+						}
+						pp := FindPath(PathQuery{Fn: sp, Assume: hasCh, Block: publishes, Target: func(in ssa.Instruction) bool {
+							if _, ok := in.(*ssa.Return); ok {
+								return true
+							}
+							_, isRD := in.(*ssa.RunDefers)
+							return isRD
+						}})
+						r.Check("R8:fetched-value-published", "R8 publish-before-spawn", "the fetch goroutine stores what it receives from the source channel as the pod's resources before it signals completion", e.Pos(sp.Pos()), sp, pp == nil && fPR != nil, e.pathString(pp), true)
+					}
+					if cp := e.Fn(pkgCA, "cache.createPod"); cp != nil {
+						pc := FindPath(PathQuery{Fn: cp, Block: func(in ssa.Instruction) bool {
+							if !e.callOf(in, fetch) {
+								return false
+							}
+							a := callArgs(in.(ssa.CallInstruction))
+							return len(a) == 2 && paramIndex(a[1]) >= 0
+						}, Target: isRet})
+						r.Check("R8:fetch-started-at-creation", "R8 publish-before-spawn", "creating a pod starts the fetch of its resources from the channel it was given", e.Pos(cp.Pos()), cp, pc == nil, e.pathString(pc), true)
+					}
+				}
 				// the goroutine closes the wait channel on every path after storing PodResources
 				for _, sp := range spawned {
 					r.MustPass("R8:close-after-fetch", "R8 publish-before-spawn", "the fetch goroutine closes waitResCh on every path (deferred close)", sp, nil, nil,
